@@ -466,6 +466,14 @@ class ProjectData(sc.prettyobj):
 
         """
 
+        try:
+            return self._validate(framework)
+        except AssertionError as e:
+            # Many of the content checks are written as assertions. Problems with the content of the databook
+            # should be reported as an invalid databook rather than as an internal error
+            raise InvalidDatabook(str(e)) from e
+
+    def _validate(self, framework) -> bool:
         # Make sure that all of the quantities the Framework says we should read in have been read in, and that
         # those quantities all have some data values associated with them
         for pop in self.pops.values():
